@@ -330,3 +330,51 @@ package core
 //@ guard IndexedState.cachedRules by IndexedState.RWMutex
 //@ guard LinearState.Facts by LinearState.RWMutex
 //@ guard LinearState.cachedRules by LinearState.RWMutex
+
+// Internal routines run with the state lock held by their caller (or under the hook privilege).
+//@ define privileged(ctx) = ctx != nil && ctx.privilege == "hook"
+//@ func (*IndexedState).add
+//@   requires[C12.ix_add_needs_wlock] heldW(s.RWMutex) || privileged(ctx)
+//@   ensures[C12.ix_add_revokes_privilege] old(privileged(ctx)) || !privileged(ctx)
+//@ func (*IndexedState).indexRule
+//@   requires[C12.ix_indexrule_needs_wlock] heldW(s.RWMutex) || privileged(ctx)
+//@ func (*IndexedState).unindexRule
+//@   requires[C12.ix_unindexrule_needs_wlock] heldW(s.RWMutex) || privileged(ctx)
+//@ func (*IndexedState).init
+//@   requires[C12.ix_init_needs_wlock] heldW(s.RWMutex) || privileged(ctx) || fresh(s)
+//@ func (*IndexedState).rem
+//@   requires[C12.ix_rem_needs_wlock] heldW(s.RWMutex) || privileged(ctx)
+//@ func (*IndexedState).deleteDependencies
+//@   requires[C12.ix_deletedeps_needs_wlock] heldW(s.RWMutex) || privileged(ctx)
+//@ func (*IndexedState).remHooks
+//@   requires[C12.ix_remhooks_needs_wlock] heldW(s.RWMutex) || privileged(ctx)
+//@ func (*IndexedState).search
+//@   requires[C12.ix_search_needs_lock] held(s.RWMutex) || privileged(ctx)
+//@ func (*IndexedState).SearchForIDs
+//@   requires[C12.ix_searchforids_needs_lock] held(s.RWMutex) || privileged(ctx)
+//@ func (*IndexedState).expire
+//@   requires[C12.ix_expire_needs_wlock] heldW(s.RWMutex) || privileged(ctx)
+//@ func (*IndexedState).get
+//@   requires[C12.ix_get_lock_or_flag] getLock || held(s.RWMutex) || privileged(ctx)
+//@ func (*LinearState).rem
+//@   requires[C12.lin_rem_lock_or_flag] lock || heldW(s.RWMutex) || privileged(ctx)
+//@ func (*LinearState).deleteDependencies
+//@   requires[C12.lin_deletedeps_needs_wlock] heldW(s.RWMutex) || privileged(ctx)
+//@ func (*LinearState).search
+//@   requires[C12.lin_search_lock_or_flag] lock || held(s.RWMutex) || privileged(ctx)
+//@ func (*LinearState).expire
+//@   requires[C12.lin_expire_needs_wlock] heldW(s.RWMutex) || privileged(ctx)
+//@ func (*LinearState).get
+//@   requires[C12.lin_get_lock_or_flag] getLock || held(s.RWMutex) || privileged(ctx)
+
+// Mutating entry points are not re-entered from inside a hook (documented protocol; assumption).
+//@ func (*IndexedState).Add
+//@   assume-entry !privileged(ctx)
+//@ func (*IndexedState).Rem
+//@   assume-entry !privileged(ctx)
+//@ func (*IndexedState).Load
+//@   assume-entry !privileged(ctx)
+//@ func (*IndexedState).Clear
+//@   assume-entry !privileged(ctx)
+//@ func (*IndexedState).Delete
+//@   assume-entry !privileged(ctx)
